@@ -394,15 +394,9 @@ func (p *LinkADRAnsPayload) UnmarshalBinary(data []byte) error {
 	if len(data) != 1 {
 		return errors.New("lorawan: 1 byte of data is expected")
 	}
-	if data[0]&(1<<0) > 0 {
-		p.ChannelMaskACK = true
-	}
-	if data[0]&(1<<1) > 0 {
-		p.DataRateACK = true
-	}
-	if data[0]&(1<<2) > 0 {
-		p.PowerACK = true
-	}
+	p.ChannelMaskACK = data[0]&(1<<0) > 0
+	p.DataRateACK = data[0]&(1<<1) > 0
+	p.PowerACK = data[0]&(1<<2) > 0
 	return nil
 }
 
